@@ -1,4 +1,6 @@
 import OV.Lemmas.C03Steps
+import OV.Lemmas.C03State
+import OV.Lemmas.C03Uses
 /-!
 # C04 — `optimize()` is total on valid models; result valid, same interface; overridable
 initializer-inputs are never folded
@@ -185,6 +187,22 @@ theorem split_to_sequence_needs_opset18 (n : Node) (v : Nat) (hop : n.op = "Spli
     have : ¬ (v ≥ 18) := by omega
     simp [this]
 
+/-! ### no dangling reference (generic-folding fragment) -/
+
+/-- **No dangling reference on the generic-folding fragment** (`replace_node` +
+`_clear_unused_initializers`): for graphs whose nodes carry no bodies, are not `Constant` nodes and
+have no registered partial evaluator, every initializer the pass pops is neither a formal input nor
+an output of the graph nor an input of any node of the result — for every option tuple and
+annotation table, unconditionally (no execution hypothesis).  Proof: the use counts the pass
+maintains are upper bounds of the real number of occurrences (`Bk.lb`), so "no uses" implies
+"not mentioned". -/
+theorem no_dangling_fragment (ctx : Ctx) (hnf : ctx.isFunction = false) (info : List (Name × VInfo)) (g : Graph)
+    (hplain : ∀ n ∈ g.nodes, Plain n) (hnofresh : ∀ k : Nat, cnt ("%" ++ toString k) g.nodes = 0) :
+    ∀ x, x ∈ (foldGraph ctx info g).1.removed →
+      g.inputs.contains x = false ∧ g.outputs.contains x = false ∧
+      ∀ n ∈ (visitGraph ctx maxDepth (initialState g info) g).2.nodes, n.inputs.contains (some x) = false :=
+  no_dangling_aux 7 ctx hnf info g hplain hnofresh
+
 /-! ### refuted clauses (findings) and regression witnesses of fixed ones -/
 
 def ctxW (v : Nat) : Ctx :=
@@ -218,17 +236,50 @@ def infoShapeW : List (Name × VInfo) :=
   [("x", { dtype := some 1, shape := some [.known 3] }),
    ("w", { dtype := some 1, shape := some [.known 3], const := some tokW })]
 
-/-- **C04-D6 (open).**  The full clause "an initializer that is also a graph input keeps its
-default" is still false: `Shape(w)` needs no value, is replaced by `Constant([3])`, and
-`_clear_unused_initializers` then pops `w` although `w` stays a formal input. -/
-theorem overridable_inputs_kept_full_refuted :
-    ¬ (∀ (ctx : Ctx) (info : List (Name × VInfo)) (g : Graph) (x : Name),
-        x ∈ g.inputs → x ∈ g.inits.map (·.1) →
-        x ∈ (foldGraph ctx info g).2.inits.map (·.1)) := by
-  intro h
-  have := h (ctxW 18) infoShapeW gShapeW "w" (by decide) (by decide)
-  revert this
+/-- Regression witness of C04-D6 (fixed by a75a907): `Shape(w)` is still replaced by `Constant([3])`,
+but the initializer `w` — which is also a formal input — stays. -/
+theorem shape_of_initializer_input_keeps_default :
+    (foldGraph (ctxW 18) infoShapeW gShapeW).2.nodes.map (·.op) = ["Constant", "Add"] ∧
+    (foldGraph (ctxW 18) infoShapeW gShapeW).2.inits.map (·.1) = ["w"] := by
   decide
+
+/-- **Overridable initializer-inputs keep their default** (after commits 3131a7c + a75a907): for every
+option tuple, annotation table and graph, an initializer of the main graph that is also a formal
+input is still an initializer of the result.  Proof: the set of formal inputs is written once
+(`initialState`) and no step of the pass changes it; `_clear_unused_initializers` is the only place
+that pops an initializer and it skips graph inputs (`Kept` invariant through `processNode`,
+`applyRepl`, `visitNodes`, `visitGraph` at every nesting depth); folded results are only ever
+*appended* to a graph's initializers.  Before a75a907 this statement was false
+(witness `gShapeW`: `Shape(w)` → `Constant`, `w` popped; replayed on the real code as C04-D6). -/
+theorem overridable_inputs_kept (ctx : Ctx) (info : List (Name × VInfo)) (g : Graph) (x : Name)
+    (hx : x ∈ g.inputs) (hi : x ∈ g.inits.map (·.1)) :
+    x ∈ (foldGraph ctx info g).2.inits.map (·.1) := by
+  have hG : (collect Graph.inputs maxDepth g).contains x = true := by
+    simp only [maxDepth, collect, List.contains_iff_mem, List.mem_append]
+    exact Or.inl hx
+  have hk := kept_visitGraph ctx maxDepth (initialState g info) g (initialState_kept g info)
+  obtain ⟨added, hadd⟩ := visitGraph_inits ctx 7 (initialState g info) g
+  have hnr : (visitGraph ctx maxDepth (initialState g info) g).1.removed.contains x = false := by
+    cases hc : (visitGraph ctx maxDepth (initialState g info) g).1.removed.contains x with
+    | false => rfl
+    | true =>
+      have := hk.2 x (by simpa using hc)
+      rw [hG] at this
+      exact absurd this (by decide)
+  obtain ⟨p, hp, hpx⟩ := List.mem_map.mp hi
+  simp only [foldGraph]
+  show x ∈ (pruneInits _ (7 + 1) _).inits.map (·.1)
+  simp only [pruneInits, Graph.inits]
+  apply List.mem_map.mpr
+  refine ⟨p, ?_, hpx⟩
+  apply List.mem_filter.mpr
+  constructor
+  · have : (visitGraph ctx maxDepth (initialState g info) g).2.inits = g.inits ++ added := hadd
+    simp only [Graph.inits] at this
+    rw [this]
+    exact List.mem_append_left _ hp
+  · rw [hpx]
+    simp only [hnr, Bool.not_false]
 
 def stSplit : St :=
   { info := [("x", { dtype := some 1, shape := some [.known 6, .known 2] }), ("sp", { dtype := some 7, shape := some [] })] }
